@@ -158,6 +158,12 @@ let run_trie_ops (prefix : string) (v : variant) (built : trie) (ops : string li
     | ["IE"; s] -> hop "ie" (HMkEnum (n_of_string s))
     | ["IDP"; s] -> hop "idp" (HDefPrefix (n_of_string s))
     | ["IDR"; s] -> hop "idr" (HDefPred (n_of_string s))
+    | ["IC"; a; b] | ["IM"; a; b] ->
+      (* an iterator is a value of the model: a copy (or the target of a move) is a second binding of the same record *)
+      let op = String.lowercase_ascii (List.hd (words line)) in
+      (match assoc (n_of_string a) !slots_ref with
+       | Some sl -> slots_ref := (n_of_string b, sl) :: !slots_ref; pr' "%s ok" op
+       | None -> pr' "error empty-slot %s" line)
     | ["N"; s] -> hop "n" (HNext (n_of_string s))
     | ["NI"; s] ->    (* same abstract step; the keyword is not printed *)
       (match hstep v { h_trie = !cur; h_slots = !slots_ref; h_bufs = !bufs_ref } (HNext (n_of_string s)) with
@@ -206,7 +212,8 @@ let run_trie_ops (prefix : string) (v : variant) (built : trie) (ops : string li
     | ["TID"] -> (match get_type_id (save v !cur) with
         | Ok t -> pr' "tid %s" (string_of_n t) | r -> pr' "tid %s" (exc_or_fault r))
     | ["BADPATH"; fn; what] ->
-      let node = match what with "missing" -> Missing | "noparent" -> NoParent | _ -> Dir in
+      (* every path that cannot be opened is one of the three unopenable nodes of the model *)
+      let node = match what with "missing" -> Missing | "dir" -> Dir | _ -> NoParent in
       (match fn with
        | "load" -> pr' "badpath %s" (exc_or_fault (fs_load v node))
        | "tid" -> pr' "badpath %s" (exc_or_fault (fs_type_id node))
@@ -377,6 +384,7 @@ let case_tail (c : case) =
   let bin = bool_of (List.hd c.args) in
   let sufs = ref [] and order = ref [] and tv = ref None in
   List.iter (fun line -> match words line with
+    | ["WIN"] -> ()        (* how the caller stores the suffixes does not occur in the model *)
     | ["S"; h; np] ->
       let np' = n_of_string np in
       (match tail_set_suffix !sufs (bytes_of_hex h) np' with
